@@ -34,7 +34,8 @@ def arc_case(start, direction, radius, sweep_deg, dz, phi_deg, cz=None):
     return "arc", {"target": target, "center": list(center) + ([cz] if cz is not None else [])}, exp
 
 
-def arc_radius_case(start, direction, radius, chord_ratio, ang_deg):
+def arc_radius_case(start, direction, radius, chord_ratio, ang_deg, dz=None):
+    """dz: the target also names a Z (a helical arc given by its radius): the radius applies to the XY projection."""
     r = abs(radius)
     d = 2 * r * chord_ratio
     ang = math.radians(ang_deg)
@@ -45,8 +46,9 @@ def arc_radius_case(start, direction, radius, chord_ratio, ang_deg):
     if chord_ratio >= 1.0:
         sweep = math.pi
     exp = {"kind": "arc_radius", "r": r, "sweep": sweep, "dir": sgn(direction), "start": start,
-           "end": (txy[0], txy[1], start[2]), "chord": d}
-    return "arc_radius", {"target": list(txy), "radius": float(radius)}, exp
+           "end": (txy[0], txy[1], start[2] + (dz or 0.0)), "chord": d, "dz": dz or 0.0}
+    target = list(txy) if dz is None else [txy[0], txy[1], start[2] + dz]
+    return "arc_radius", {"target": target, "radius": float(radius)}, exp
 
 
 def circle_case(start, direction, radius, phi_deg, cz=None):
@@ -252,11 +254,14 @@ def check(shape, exp, verts, start, resolution, tol):
             sweep = ang[-1] - a0
             mono = all((b - a) * d >= -1e-7 for a, b in zip([a0] + ang[:-1], ang))
             notes.append((c, rad_ok, math.degrees(sweep), mono))
-            if rad_ok and mono and abs(abs(sweep) - exp["sweep"]) <= 1e-6 + 4 * slack / r and sweep * d > 0:
+            z_ok = all(abs(v[2] - (s[2] + exp.get("dz", 0.0) * (a - a0) / sweep)) <= slack + abs(exp.get("dz", 0.0)) * 4 * slack / r
+                       for v, a in zip(verts, ang)) if abs(sweep) > 1e-9 else False
+            notes[-1] = notes[-1] + (z_ok,)
+            if rad_ok and mono and z_ok and abs(abs(sweep) - exp["sweep"]) <= 1e-6 + 4 * slack / r and sweep * d > 0:
                 ok = True
         if not ok:
             P.append((f"{shape}:not-the-requested-arc", f"expected |sweep| {math.degrees(exp['sweep']):.4f} deg dir {d} radius {r}; candidates {notes}"))
-        if any(abs(v[2] - s[2]) > tol for v in verts):
+        if not exp.get("dz") and any(abs(v[2] - s[2]) > tol for v in verts):
             P.append((f"{shape}:z-changed", "z varies on a planar arc"))
     elif kind == "spline":
         j = 0
@@ -302,6 +307,8 @@ def grid(tier):
             for ratio in (0.3, 0.9, 1.0):
                 for sign in (1, -1):
                     out.append((res, lambda s, d, radius=radius, ratio=ratio, sign=sign: arc_radius_case(s, d, sign * radius, ratio, 30)))
+            for sign in (1, -1):       # helical arcs given by radius
+                out.append((res, lambda s, d, radius=radius, sign=sign: arc_radius_case(s, d, sign * radius, 0.6, 200, dz=3.0)))
             out.append((res, lambda s, d, radius=radius: circle_case(s, d, radius, 60)))
             # centre given with a third component (the shapes lie in XY; the documented curve does not depend on it)
             out.append((res, lambda s, d, radius=radius: circle_case(s, d, radius, 60, cz=2.5)))
